@@ -249,7 +249,8 @@ def pmap(modname: str, fname: str, payloads: List[Any], workers: Optional[int] =
     from concurrent.futures import ProcessPoolExecutor, as_completed
 
     ctx = mp.get_context("spawn")
-    with ProcessPoolExecutor(max_workers=workers, mp_context=ctx) as ex:
+    ex = ProcessPoolExecutor(max_workers=workers, mp_context=ctx)
+    try:
         futs = {ex.submit(_worker_entry, (modname, fname, p)): i for i, p in enumerate(payloads)}
         for fut in as_completed(futs):
             i = futs[fut]
@@ -261,6 +262,17 @@ def pmap(modname: str, fname: str, payloads: List[Any], workers: Optional[int] =
             results[i] = val
             if on_result:
                 on_result(payloads[i], val)
+    except BaseException:
+        # do not wait for the remaining payloads of a run that has already failed
+        procs = list(getattr(ex, "_processes", {}).values())
+        ex.shutdown(wait=False, cancel_futures=True)
+        for pr in procs:
+            try:
+                pr.terminate()
+            except Exception:  # noqa
+                pass
+        raise
+    ex.shutdown(wait=True)
     return results
 
 
